@@ -273,15 +273,27 @@ def run(cx, rep):
                            "local declarations must be looked up by the original name (key derives from UnresolvedExport.%s)" % sorted(tg), "%s:%s" % (g.file, c["line"]))
                 if c["k"] == "Match" and (c.get("scrut_adt") or "").endswith("ImportReference"):
                     ms.append((g, c))
-        rep.floor("C09.1", "export registrations in parse_and_bind", n_ins, 7)
-        rep.floor("C09.1", "local lookups in parse_and_bind", n_get, 6)
+        # (floors on kinds, not on today's counts: the registrations may be merged into fewer calls)
+        rep.floor("C09.1", "export registrations in parse_and_bind", n_ins, 3)
+        rep.floor("C09.1", "local lookups in parse_and_bind", n_get, 2)
         # ------------------------------------------------------------ C09.3
         rep.rule("C09.3", "re-exporting an imported name registers an export for every kind of import")
         rep.ob("C09.3", "site", len(ms) == 1, "expected one match over ImportReference in the export binder (found %d)" % len(ms), pb[0].loc())
+        INSERTS = ("insert_type", "insert_value", "insert_unknown")
         for g, m in ms:
+            # the match may register the export in each arm, or compute the export record that is registered once
+            # afterwards: then the match (or a call of the function that consists of it) sits inside the arguments
+            # of a registration
+            def inside_insert(tree_, pred):
+                return any(c["k"] == "MethodCall" and c["method"] in INSERTS and any(pred(x) for a_ in c["args"] for x in walk(a_)) for c in walk(tree_["body"]))
+            flows = inside_insert(F.hir[g.id], lambda x: x is m) or any(
+                inside_insert(t2, lambda x: x["k"] in ("Call", "MethodCall") and F._callee_gid(g.crate, x.get("callee") or x.get("resolved") or "") == g.id)
+                for _, t2 in trees)
             for a in m["arms"]:
                 v = (a["pat"].get("def") or "_").rsplit("::", 1)[-1]
-                reg = any(x["k"] == "MethodCall" and x["method"] in ("insert_type", "insert_value", "insert_unknown") for x in walk(a["body"]))
+                reg = any(x["k"] == "MethodCall" and x["method"] in INSERTS for x in walk(a["body"]))
+                if not reg and flows and "SymbolExport" in (a["body"].get("ty") or "") and any(x["k"] == "Struct" and "SymbolExport" in (x.get("def") or "") for x in walk(a["body"])):
+                    reg = True
                 rep.ob("C09.3", "reexport-import/%s" % v, reg,
                        "`import .. from './a'; export { X }` with an ImportReference::%s binding registers no export: the name resolves in TypeScript but is reported as unresolved here" % v,
                        "%s:%s" % (g.file, a["line"]), sample={"import_kind": v, "registers_export": reg})
@@ -510,3 +522,144 @@ def run(cx, rep):
     rep.rule("C09.9", "the type-side and value-side twins of name resolution agree")
     import twins
     twins.twin_rule(cx, rep, "C09.9", r"swc_tools/|frontend/", floor=6)
+
+    # ---------------------------------------------------------------- C09.10
+    rep.rule("C09.10", "a lookup that follows `export *` continues with the target module's complete lookup")
+    star_hop_rule(cx, rep, "C09.10")
+
+
+def star_hop_rule(cx, rep, rid):
+    """`export * from "./m"` re-exports everything m exports - what m declares AND what m itself re-exports (another
+    `export *`, `export { X } from`, an import that is exported again).  A lookup that walks the list of star targets
+    must therefore ask each target the same question it was asked, i.e. re-enter the lookup; reading the target's own
+    table of declarations resolves one hop and reports `cannot resolve` for every longer chain, so the multi-file
+    layout compiles differently from the single-file program.  Decided: every function that walks the star-target
+    list of an export table (the field of type Vec<BffFileName> of the struct that holds the name -> export maps) and
+    returns an export is recursive - some call inside it (or its closures) leads back to it - or is the iterative
+    form of the same closure (it also reads the star list of a target, feeding a work list)."""
+    F = cx.rs
+    from facts import walk as rwalk
+    n = 0
+    for g in sorted(F.hir):
+        f = F.fns.get(g)
+        if f is None or f.kind == "Closure" or "/src/swc_tools/" not in (f.file or ""):
+            continue
+        out_ty = (F.hir[g].get("output") or getattr(f, "output", "") or "")
+        reads = [x for x in rwalk(F.hir[g]["body"]) if x["k"] == "Field" and re.search(r"Vec<(\w+::)*BffFileName>", x.get("ty") or "") and "Exports" in (x.get("adt") or "")]
+        if not reads:
+            continue
+        rets = f.raw.get("output") or ""
+        if "SymbolExport" not in rets or "Option" not in rets:
+            continue
+        n += 1
+        # reachability g ->* g over call-graph edges
+        seen, work, back = set(), list(F.edges.get(g, ())), False
+        while work:
+            x = work.pop()
+            if x == g:
+                back = True
+                break
+            if x in seen:
+                continue
+            seen.add(x)
+            work.extend(F.edges.get(x, ()))
+        # the iterative form of the same closure: a work list that is fed with the star list of each TARGET
+        # (a read of the field on something other than the receiver) visits the transitive targets without recursion
+        foreign = [x for x in reads if not any(z["k"] == "Path" and z.get("name") == "self" for z in rwalk(x))]
+        if not back and foreign:
+            back = True
+        rep.ob(rid, "%s/re-enters" % g.rsplit("::", 1)[-1], back,
+               "%s walks the `export *` targets of a module but never re-enters the lookup for a target: a name the target re-exports itself (a second `export *`, `export { X } from`, an exported import) is not found through the star, so a re-export chain of length two no longer resolves although the single-file program compiles" % g,
+               "%s:%s" % (f.file, reads[0]["line"]), sample={"fn": g, "star_list_field": reads[0]["name"], "recursive": back})
+    rep.floor(rid, "lookups over the star-target list", n, 1)
+
+    # ---------------------------------------------------------------- C09.11
+    rep.rule("C09.11", "in import(\"m\").Q<Args> only Q is looked up in m: Args belong to the importing file and Q is not a type parameter")
+    import_type_scope_rule(cx, rep, "C09.11")
+
+
+def import_type_scope_rule(cx, rep, rid):
+    """`import("./m").Box<Local>` names Box in module m; `Local` is written in - and must be resolved against - the file
+    that contains the import type, and the qualifier `Box` is a name of m even when a type parameter `Box` is in
+    scope.  (Both were wrong: arguments were lowered with m as the current file, binding a private type of m with the
+    same name, and the qualifier was first searched on the generic-parameter stack; repaired by 009be55.)
+    Decided on every function that takes a `&TsImportType`:
+      (a) no call receives type SYNTAX of the import type (its TsTypeParamInstantiation / a TsType) together with a
+          file name obtained from resolve_import - the arguments are lowered with the function's own file;
+      (b) the qualifier (`&TsEntityName`) is not handed to a function that searches a scope stack (a Vec<(String, _)>
+          field that is pushed and popped), directly or through functions that pass the entity name on."""
+    F = cx.rs
+    from facts import walk as rwalk
+    # functions that search a scope stack
+    searchers = set()
+    for g in F.hir:
+        for n in rwalk(F.hir[g]["body"]):
+            if n["k"] == "MethodCall" and n["method"] in ("iter", "iter_mut"):
+                r = n["recv"]
+                while r["k"] in ("AddrOf", "Unary"):
+                    r = r["e"]
+                if r["k"] == "Field" and re.match(r"^std::vec::Vec<\(std::string::String, ", r.get("ty") or ""):
+                    searchers.add(g)
+    SYNTAX = re.compile(r"\b(TsTypeParamInstantiation|TsType)\b")
+    n = 0
+    for g in sorted(F.hir):
+        f = F.fns.get(g)
+        tree = F.hir[g]
+        if f is None or not any("TsImportType" in (p.get("ty") or "") for p in tree.get("params", []) if isinstance(p, dict)):
+            continue
+        n += 1
+        foreign = set()
+        for x in rwalk(tree["body"]):
+            if x["k"] in ("Let", "LetStmt") and x.get("init") is not None:
+                i = x["init"]
+                cal = (i.get("resolved") or i.get("callee") or i.get("method") or "")
+                if i["k"] in ("MethodCall", "Call") and cal.endswith("resolve_import"):
+                    foreign |= {y.get("lid") for y in rwalk(x["pat"]) if y["k"] == "P.Binding"}
+            if x["k"] == "Match" and x.get("scrut") is not None:
+                i = x["scrut"]
+                cal = (i.get("resolved") or i.get("callee") or i.get("method") or "")
+                if i["k"] in ("MethodCall", "Call") and cal.endswith("resolve_import"):
+                    for arm in x.get("arms", []):
+                        foreign |= {y.get("lid") for y in rwalk(arm.get("pat") or {}) if isinstance(y, dict) and y.get("k") == "P.Binding"}
+        rep.ob(rid, "%s/resolves-import" % g.rsplit("::", 1)[-1], bool(foreign),
+               "%s takes an import type but no binding of a resolve_import result was found: the rule cannot tell the two files apart" % g, f.loc(),
+               sample={"fn": g, "foreign_file_bindings": len(foreign)})
+        for c in rwalk(tree["body"]):
+            if c["k"] not in ("Call", "MethodCall"):
+                continue
+            args = list(c.get("args") or [])
+            syn = [a for a in args if SYNTAX.search(a.get("ty") or "") and "TsImportType" not in (a.get("ty") or "")]
+            if syn:
+                uses_foreign = [a for a in args if any(y["k"] == "Path" and y.get("lid") in foreign for y in rwalk(a))]
+                cal = c.get("resolved") or c.get("callee") or c.get("method")
+                rep.ob(rid, "%s/args-file@%s" % (g.rsplit("::", 1)[-1], (cal or "?").rsplit("::", 1)[-1]), not uses_foreign,
+                       "%s lowers the type arguments of an import type through %s with the IMPORTED module as current file: a name in the arguments that the imported module also declares (privately) is bound to that declaration instead of the importer's" % (g, cal),
+                       "%s:%s" % (f.file, c["line"]), sample={"fn": g, "call": cal})
+            # (b) qualifier handed to a scope-stack searcher
+            ent = [a for a in args if "TsEntityName" in (a.get("ty") or "")]
+            if ent:
+                cal = c.get("resolved") or c.get("callee")
+                tg = F._callee_gid(f.crate, cal) if cal else None
+                seen, work, hit = set(), [tg] if tg else [], None
+                depth = {tg: 0}
+                while work:
+                    x = work.pop()
+                    if x in seen or x not in F.hir:
+                        continue
+                    seen.add(x)
+                    if x in searchers:
+                        hit = x
+                        break
+                    if depth[x] >= 3:
+                        continue
+                    for c2 in rwalk(F.hir[x]["body"]):
+                        if c2["k"] in ("Call", "MethodCall") and any("TsEntityName" in (a.get("ty") or "") for a in (c2.get("args") or [])):
+                            cal2 = c2.get("resolved") or c2.get("callee")
+                            t2 = F._callee_gid(F.fns[x].crate, cal2) if cal2 and x in F.fns else None
+                            if t2 and t2 not in depth:
+                                depth[t2] = depth[x] + 1
+                                work.append(t2)
+                rep.ob(rid, "%s/qualifier@%s" % (g.rsplit("::", 1)[-1], (cal or "?").rsplit("::", 1)[-1]), hit is None,
+                       "%s hands the qualifier of an import type to %s, which searches the generic-parameter stack: inside `type W<T>` the type `import(\"./m\").T` becomes W's argument instead of m's export T" % (g, hit),
+                       "%s:%s" % (f.file, c["line"]), sample={"fn": g, "call": cal, "searcher": hit})
+    rep.floor(rid, "functions that take an import type", n, 1)
